@@ -279,6 +279,7 @@ func (fr *frame) applyContract(ct *FuncContract, f *ssa.Function, sig *types.Sig
 		}
 		fr.havocAll(st)
 	}
+	var frameGoals []string
 	for _, m := range ct.Modifies {
 		locs, err := env.evalLocs(m)
 		if err != nil {
@@ -294,12 +295,18 @@ func (fr *frame) applyContract(ct *FuncContract, f *ssa.Function, sig *types.Sig
 				st.heap[l.arr] = fc.fresh(l.arr+"_m", l.sort)
 				continue
 			}
-			fr.frameCheck(st, l.arr, l.ref, reach, pos)
+			if g := fr.frameGoal(l.arr, l.ref); g != "" {
+				frameGoals = append(frameGoals, g)
+			}
 			a := fc.heapGet(st, l.arr, l.sort)
 			vs := sortArgs(l.sort)[1]
 			nv := fc.fresh(l.arr+"_m", vs)
 			fc.heapSet(st, l.arr, Term{store(a.S, l.ref.S, nv.S), a.Sort})
 		}
+	}
+	if len(frameGoals) > 0 {
+		o := fc.oblig("frame", "frame.call."+cname, and(frameGoals...), reach, pos, nil)
+		o.Src = "everything " + shortKey(ct.Key) + " may modify is covered by the caller's modifies clause (or freshly allocated)"
 	}
 	for _, n := range ct.ModAll {
 		hn := fc.resolveHeapName(n, ct.Pkg)
@@ -343,6 +350,16 @@ func (fr *frame) applyContract(ct *FuncContract, f *ssa.Function, sig *types.Sig
 		if sig.Results().Len() == 1 {
 			env.vars["result"] = cv
 		}
+	}
+	for _, gs := range ct.Ghostset {
+		// the callee performs the ghost assignment when it returns: location (post state) == value (post state)
+		le, err1 := env.eval(gs.Loc)
+		ve, err2 := env.eval(gs.Val)
+		if err1 != nil || err2 != nil {
+			fc.unsupported("ghostset of %s: %v %v", ct.Key, err1, err2)
+			continue
+		}
+		fc.factIf(reach, eq(le.T.S, ve.T.S))
 	}
 	for _, cl := range append(append([]*Clause{}, ct.Ensures...), ct.Ghostdef...) {
 		t, err := env.evalBool(cl.Expr)
